@@ -178,9 +178,40 @@ def vm_builtin_table(vm):
     return table
 
 
+def role_fns(meta):
+    """Anchors located by role (private names may change): the restorer's wrapping function, its
+    stack-effect predicate, the Expr -> OptimizedExpr conversion and the unrolling pass."""
+    cg = hirq.CallGraph([meta])
+    reach = cg.reachable([OPTIMIZE])
+    out = {"wrap": None, "modifies": None, "convert": None, "unroll": None}
+    cands = [meta.fn(p) for p in sorted(reach) if meta.fn(p) is not None and p.startswith("pest_meta::optimizer::")
+             and not meta.fn(p).get("exp")]
+    for fn in cands:
+        if any(kind(n) == "Call" and callee(n) == OEXPR + "::RestoreOnErr" for n in walk(fn["body"])) \
+                and traverse.enum_matches(fn, OEXPR):
+            out["wrap"] = fn
+    if out["wrap"] is not None:
+        for (c, n) in hirq.call_sites(out["wrap"]["body"]):
+            f2 = meta.fn(c)
+            if f2 is not None and f2.get("output") == "bool" and traverse.enum_matches(f2, OEXPR):
+                out["modifies"] = f2
+    for fn in cands:
+        if fn.get("output") == OEXPR and fn.get("inputs") == [EXPR] and any(callee(n) == fn["path"] for n in walk(fn["body"])):
+            out["convert"] = fn
+    generic = set(f["path"] for (f, e) in generic_traversals(meta, [OPTIMIZE], [EXPR, OEXPR])[0])
+    for fn in cands:
+        if fn["path"] in generic or fn is out["convert"]:
+            continue
+        for m in traverse.enum_matches(fn, EXPR):
+            vs = set(v.split("::")[-1] for arm in m["arms"] for v in hirq.pat_variants(arm["pat"]))
+            if "RepExact" in vs and "RepMinMax" in vs:
+                out["unroll"] = fn
+    return out
+
+
 def restorer_table(meta):
-    """(recognised built-in names, recognised variants) from child_modifies_state's arms."""
-    fn = meta.fn("pest_meta::optimizer::restorer::child_modifies_state")
+    """(recognised built-in names, recognised variants) from the restorer's stack-effect predicate."""
+    fn = role_fns(meta)["modifies"]
     if fn is None:
         return None, None, None
     ms = traverse.enum_matches(fn, OEXPR)
@@ -239,9 +270,9 @@ def wrap(rep, meta, vm, sfx):
     r = rep.rule("C05.RESTORE-WRAP" + sfx, 3,
                  "the restorer wraps the child of every operator whose back-end translation absorbs the child's "
                  "failure outside a `sequence` (optional / repeat first iteration / ordered choice)")
-    fn = meta.fn("pest_meta::optimizer::restorer::wrap_branching_exprs")
+    fn = role_fns(meta)["wrap"]
     if fn is None:
-        r.lost("restorer::wrap_branching_exprs")
+        r.lost("the restorer function that inserts RestoreOnErr")
         return
     ms = traverse.enum_matches(fn, OEXPR)
     if not ms:
@@ -352,10 +383,10 @@ def unroll(rep, meta, sfx):
     r = rep.rule("C05.UNROLL" + sfx, 4,
                  "the Expr variants for which the conversion to OptimizedExpr is unreachable!() are exactly the "
                  "variants unroller::unroll rewrites away, and unroll's results contain none of them")
-    conv = meta.fn("pest_meta::optimizer::rule_to_optimized_rule::to_optimized")
-    un = meta.fn("pest_meta::optimizer::unroller::unroll")
+    roles = role_fns(meta)
+    conv, un = roles["convert"], roles["unroll"]
     if conv is None or un is None:
-        r.lost("to_optimized / unroll")
+        r.lost("the Expr->OptimizedExpr conversion / the unrolling pass")
         return
     cm = traverse.enum_matches(conv, EXPR)
     um = traverse.enum_matches(un, EXPR)
